@@ -622,12 +622,14 @@ def check(case):
                         mp.nstr(mpu, 17), a['shift'], mp.nstr(cu, 17)),
                       quantity='u')
             # joint scaling of p and rho: p* scales, u* unchanged.
-            # van_leer clamps p* at the absolute constant 1e-25: the clause
-            # is checked where that clamp is far away.
+            # van_leer clamps p* at the absolute constant 1e-25 and exact
+            # reports failure for a star pressure below the smallest normal
+            # double (2.2e-308, underflow next to vacuum): the clause is
+            # checked where those absolute constants are far away.
             lam = mp.mpf(a['lam'])
-            if name == 'exact' or (mpp > 1e-15 and mpp * lam > 1e-15 and
-                                   min(a['pl'], a['pr']) *
-                                   min(1.0, a['lam']) > 1e-12):
+            if (name == 'exact' and mpp > 1e-290 and mpp * lam > 1e-290) or \
+                    (name != 'exact' and mpp > 1e-15 and mpp * lam > 1e-15 and
+                     min(a['pl'], a['pr']) * min(1.0, a['lam']) > 1e-12):
                 e = dict(a)
                 e.update(pl=mp.mpf(a['pl']) * lam, pr=mp.mpf(a['pr']) * lam,
                          rhol=mp.mpf(a['rhol']) * lam,
